@@ -123,3 +123,203 @@ pub open spec fn enc_done_data(d: DoneData) -> Seq<u8> {
 pub open spec fn done_data_ok(d: DoneData) -> bool {
     opt_common_content_ok(d.content) && params_ok(params_seq(d.params))
 }
+
+// ---- Invoke ----------------------------------------------------------------------------------
+pub open spec fn enc_invoke(i: Invoke) -> Seq<u8> {
+    enc_str(sb(i.invoke_id))
+        + (if i.invoke_id@.len() == 0 { enc_str(sb(i.parent_state_name)) } else { Seq::<u8>::empty() })
+        + enc_uint(i.doc_id as u64)
+        + enc_data(i.src_expr) + enc_data(i.src) + enc_data(i.type_expr) + enc_data(i.type_name)
+        + enc_str(sb(i.external_id_location))
+        + enc_bool(i.autoforward)
+        + enc_uint(i.finalize as u64)
+        + enc_opt_common_content(i.content)
+        + enc_parameters(i.params)
+        + enc_list(i.name_list@, f_str())
+}
+
+pub open spec fn invoke_ok(i: Invoke) -> bool {
+    s_ok(i.invoke_id) && (i.invoke_id@.len() == 0 ==> s_ok(i.parent_state_name))
+        && data_encodable(i.src_expr) && data_encodable(i.src) && data_encodable(i.type_expr) && data_encodable(i.type_name)
+        && s_ok(i.external_id_location) && opt_common_content_ok(i.content) && params_ok(params_seq(i.params))
+        && strs_ok(i.name_list@)
+}
+
+pub open spec fn invokes_ok(s: Seq<Invoke>) -> bool {
+    forall|i: int| 0 <= i < s.len() ==> invoke_ok(#[trigger] s[i])
+}
+
+// ---- Transition ------------------------------------------------------------------------------
+pub open spec fn transition_type_ordinal(t: TransitionType) -> u8 {
+    match t {
+        TransitionType::Internal => 0u8,
+        TransitionType::External => 1u8,
+    }
+}
+
+pub open spec fn transition_flags(t: Transition) -> u8 {
+    (transition_type_ordinal(t.transition_type) + (if t.wildcard { 2int } else { 0int }) + (if data_is_empty(t.cond) { 0int } else { 4int })
+        + (if t.content != 0 { 8int } else { 0int })) as u8
+}
+
+pub open spec fn enc_transition(t: Transition) -> Seq<u8> {
+    enc_uint(t.id as u64) + enc_uint(t.doc_id as u64) + enc_uint(t.source as u64)
+        + enc_list(t.target@, f_id())
+        + enc_list(t.events@, f_str())
+        + enc_uint(transition_flags(t) as u64)
+        + (if data_is_empty(t.cond) { Seq::<u8>::empty() } else { enc_data(t.cond) })
+        + (if t.content != 0 { enc_uint(t.content as u64) } else { Seq::<u8>::empty() })
+}
+
+pub open spec fn transition_ok(t: Transition) -> bool {
+    strs_ok(t.events@) && (!data_is_empty(t.cond) ==> data_encodable(t.cond))
+}
+
+// ---- State -----------------------------------------------------------------------------------
+pub open spec fn history_type_ordinal(h: HistoryType) -> u8 {
+    match h {
+        HistoryType::Shallow => 1u8,
+        HistoryType::Deep => 2u8,
+        HistoryType::None => 0u8,
+    }
+}
+
+pub open spec fn state_flags(s: State) -> u16 {
+    (history_type_ordinal(s.history_type) as int
+        + (if s.onentry@.len() == 0 { 0int } else { 0x04int })
+        + (if s.onexit@.len() == 0 { 0int } else { 0x08int })
+        + (if s.states@.len() != 0 { 0x10int } else { 0int })
+        + (if s.is_final { 0x20int } else { 0int })
+        + (if s.is_parallel { 0x40int } else { 0int })
+        + (if s.donedata.is_some() { 0x80int } else { 0int })
+        + (if s.invoke.data@.len() > 0 { 0x100int } else { 0int })
+        + (if data_map_len(s.data) != 0 { 0x200int } else { 0int })
+        + (if s.history.data@.len() > 0 { 0x400int } else { 0int })) as u16
+}
+
+/// number of entries of a state's <data> map
+pub open spec fn data_map_len(m: HashMap<String, DataArc>) -> nat {
+    m@.len()
+}
+
+/// the pairs of a data map in the order the writer iterated it (HashMap iteration order is unspecified; the reader
+/// inserts the pairs into a map again, so every such order is the same record)
+pub open spec fn map_order(m: Map<String, DataArc>, order: Seq<(String, DataArc)>) -> bool {
+    order.len() == m.len() && order.no_duplicates()
+        && forall|i: int| 0 <= i < order.len() ==> m.contains_key((#[trigger] order[i]).0) && m[order[i].0] == order[i].1
+}
+
+pub open spec fn f_pair() -> spec_fn((String, DataArc)) -> Seq<u8> {
+    |p: (String, DataArc)| enc_str(sb(p.0)) + enc_data_arc(p.1)
+}
+
+pub open spec fn pair_ok(p: (String, DataArc)) -> bool {
+    s_ok(p.0) && data_arc_encodable(p.1)
+}
+
+pub open spec fn pairs_ok(s: Seq<(String, DataArc)>) -> bool {
+    forall|i: int| 0 <= i < s.len() ==> pair_ok(#[trigger] s[i])
+}
+
+pub open spec fn deref_pair<'a>() -> spec_fn((&'a String, &'a DataArc)) -> (String, DataArc) {
+    |p: (&'a String, &'a DataArc)| (*p.0, *p.1)
+}
+
+pub open spec fn enc_state_head(s: State) -> Seq<u8> {
+    enc_uint(s.id as u64) + enc_uint(s.doc_id as u64) + enc_str(sb(s.name)) + enc_uint(state_flags(s) as u64)
+        + (if s.states@.len() != 0 { enc_uint(s.initial as u64) + enc_list(s.states@, f_id()) } else { Seq::<u8>::empty() })
+        + (if s.onentry@.len() != 0 { enc_list(s.onentry@, f_id()) } else { Seq::<u8>::empty() })
+        + (if s.onexit@.len() != 0 { enc_list(s.onexit@, f_id()) } else { Seq::<u8>::empty() })
+        + enc_list(s.transitions.data@, f_id())
+        + (if s.invoke.data@.len() > 0 { enc_list(s.invoke.data@, f_invoke()) } else { Seq::<u8>::empty() })
+        + (if s.history.data@.len() > 0 { enc_list(s.history.data@, f_id()) } else { Seq::<u8>::empty() })
+}
+
+pub open spec fn enc_state_tail(s: State) -> Seq<u8> {
+    enc_uint(s.parent as u64)
+        + (match s.donedata { Some(d) => enc_done_data(d), None => Seq::<u8>::empty() })
+}
+
+pub open spec fn state_ok(s: State) -> bool {
+    s_ok(s.name) && invokes_ok(s.invoke.data@)
+        && (match s.donedata { Some(d) => done_data_ok(d), None => true })
+}
+
+// ---- executable content ----------------------------------------------------------------------
+pub open spec fn enc_if(e: If) -> Seq<u8> {
+    enc_data(e.condition) + enc_uint(e.content as u64) + enc_uint(e.else_content as u64)
+}
+
+pub open spec fn enc_expression(e: Expression) -> Seq<u8> {
+    enc_data(e.content)
+}
+
+pub open spec fn enc_script(e: Script) -> Seq<u8> {
+    enc_list(e.content@, f_id())
+}
+
+pub open spec fn enc_log(e: Log) -> Seq<u8> {
+    enc_str(sb(e.label)) + enc_data(e.expression)
+}
+
+pub open spec fn enc_for_each(e: ForEach) -> Seq<u8> {
+    enc_uint(e.content as u64) + enc_str(sb(e.index)) + enc_data(e.array) + enc_str(sb(e.item))
+}
+
+/// the state name is part of the record when an id is generated from it (idlocation set)
+pub open spec fn enc_send(e: SendParameters) -> Seq<u8> {
+    enc_str(sb(e.name)) + enc_data(e.target) + enc_data(e.target_expr)
+        + enc_opt_common_content(e.content)
+        + enc_list(e.name_list@, f_str())
+        + enc_str(sb(e.name_location))
+        + (if e.name_location@.len() != 0 { enc_str(sb(e.parent_state_name)) } else { Seq::<u8>::empty() })
+        + enc_parameters(e.params)
+        + enc_data(e.event) + enc_data(e.event_expr) + enc_data(e.type_value) + enc_data(e.type_expr)
+        + enc_uint(e.delay_ms) + enc_data(e.delay_expr)
+}
+
+pub open spec fn send_ok(e: SendParameters) -> bool {
+    s_ok(e.name) && data_encodable(e.target) && data_encodable(e.target_expr) && opt_common_content_ok(e.content)
+        && strs_ok(e.name_list@) && s_ok(e.name_location) && (e.name_location@.len() != 0 ==> s_ok(e.parent_state_name))
+        && params_ok(params_seq(e.params))
+        && data_encodable(e.event) && data_encodable(e.event_expr) && data_encodable(e.type_value) && data_encodable(e.type_expr)
+        && data_encodable(e.delay_expr)
+}
+
+pub open spec fn enc_raise(e: Raise) -> Seq<u8> {
+    enc_str(sb(e.event))
+}
+
+pub open spec fn enc_cancel(e: Cancel) -> Seq<u8> {
+    enc_str(sb(e.send_id)) + enc_data(e.send_id_expr)
+}
+
+pub open spec fn enc_assign(e: Assign) -> Seq<u8> {
+    enc_data(e.expr) + enc_data(e.location)
+}
+
+pub open spec fn binding_type_ordinal(b: BindingType) -> u8 {
+    match b {
+        BindingType::Early => 1u8,
+        BindingType::Late => 2u8,
+    }
+}
+
+pub mod seq_axioms {
+    use super::*;
+
+    /// appending is associative; used as a rewrite towards right-nested sums
+    pub broadcast proof fn lemma_add_assoc<T>(a: Seq<T>, b: Seq<T>, c: Seq<T>)
+        ensures
+            #[trigger] ((a + b) + c) == a + (b + c),
+    {
+        assert(((a + b) + c) =~= a + (b + c));
+    }
+
+    pub broadcast proof fn lemma_add_empty<T>(a: Seq<T>)
+        ensures
+            #[trigger] (a + Seq::<T>::empty()) == a,
+    {
+        assert((a + Seq::<T>::empty()) =~= a);
+    }
+}
